@@ -78,4 +78,8 @@ def rule_I1(ctx) -> None:
 def run(ctx) -> None:
     ctx.rules_run.append("I1")
     rule_I1(ctx)
+    from . import jsonrules
+    ctx.rules_run += ["J4", "K2"]
+    jsonrules.rule_J4(ctx)      # from_dict maps every key through safe_snake_case (the only decided part of the retraction clause)
+    jsonrules.rule_K2(ctx)
     ctx.notes.append("NOT DECIDED: safe_snake_case(camel_case(f)) == f and idempotence (regular-expression semantics; known counter-examples address_line_1, x_y_z)")
